@@ -76,11 +76,25 @@ pub fn view_for(f: &FactSet, path: PathKind) -> FactSet {
 /// Make a FactSet acceptable for the text formats (no empty names, no tabs/newlines – generators
 /// never produce the latter)
 pub fn jaxable(f: &mut FactSet) {
+    let clean = |s: &str| -> String {
+        s.chars().map(|c| if c == '\t' || c == '\n' || c == '\r' || c == '\u{0}' { '_' } else { c }).collect::<String>().trim().to_string()
+    };
     for t in &mut f.terms {
+        t.name = clean(&t.name);
         if t.name.is_empty() {
             t.name = format!("unnamed {}", t.id);
         }
     }
+    for k in 0..3 {
+        for r in &mut f.recs[k] {
+            r.name = clean(&r.name);
+            if r.name.is_empty() {
+                r.name = format!("unnamed {}", r.id);
+            }
+        }
+    }
+    // the obo header carries the version as YYYY-MM-DD
+    f.version = (f.version.0 % 10_000, f.version.1 % 100, f.version.2 % 100);
 }
 
 pub fn construct(f: &FactSet, path: PathKind, rng: &mut Rng, tag: &str) -> Built {
